@@ -90,6 +90,14 @@ func c05FlagSets(c *Ctx, ns string) (main []Flags, outer []Flags) {
 			main = append(main, f)
 		}
 	}
+	// every replacement text next to the namespace flag and next to the field-name flag: those modes derive their
+	// pseudonyms from the same text and must leave the value placeholder exactly as configured
+	for _, r := range append(append([]Flags{}, reps...), Flags{R: "n.a. $x"}) {
+		w, f := r, r
+		w.W = true
+		f.F = []string{ns}
+		main = append(main, w, f)
+	}
 	// field-name / namespace / IP modes must not change which placeholder a leaf gets
 	main = append(main, Flags{N: true, B: true, F: []string{ns}}, Flags{W: true, I: true, R: `x"y\z`, F: []string{ns}}, Flags{W: true, I: true, N: true})
 	outer = []Flags{{N: true, B: true}, {R: `x"y\z`}, {REmpty: true, N: true, F: []string{ns}}, {R: "ßé日本 😀", B: true, W: true}}
